@@ -113,3 +113,118 @@ Proof.
       rewrite (run_app v L 1 n s s1 R1). rewrite R. reflexivity.
 Qed.
 End WalkEx.
+
+(* ---------------------------------------------------------------- the exact step count *)
+(* sums over the sites at or after a position *)
+Fixpoint wsum (sc : list (nat * nat)) (p : nat) : nat :=
+  match sc with
+  | [] => O
+  | (i, k) :: tl => ((if (p <=? i)%nat then k else O) + wsum tl p)%nat
+  end.
+
+Lemma wsum_none sc p : (forall i k, In (i, k) sc -> (i < p)%nat) -> wsum sc p = O.
+Proof.
+  induction sc as [|[i k] tl IH]; intros H; cbn [wsum]; [reflexivity|].
+  pose proof (H i k (or_introl eq_refl)) as Hi. destruct (Nat.leb_spec p i); [lia|].
+  rewrite IH; [reflexivity|]. intros i' k' Hin. apply (H i' k'). right. exact Hin.
+Qed.
+
+Lemma wsum_shift sc p q :
+  (p <= q)%nat -> (forall i k, In (i, k) sc -> (i < p \/ q <= i)%nat) -> wsum sc p = wsum sc q.
+Proof.
+  intros Hpq. induction sc as [|[i k] tl IH]; intros H; cbn [wsum]; [reflexivity|].
+  pose proof (H i k (or_introl eq_refl)) as Hi.
+  rewrite IH by (intros i' k' Hin; apply (H i' k'); right; exact Hin).
+  destruct (Nat.leb_spec p i), (Nat.leb_spec q i); lia.
+Qed.
+
+Lemma wsum_at sc p k :
+  NoDup (map fst sc) -> In (p, k) sc ->
+  (forall j kj, In (j, kj) sc -> j <> p -> (j + 3 <= p \/ p + 3 <= j)%nat) ->
+  wsum sc p = (k + wsum sc (p + 2))%nat.
+Proof.
+  induction sc as [|[i ki] tl IH]; intros Hnd Hin Hap; [destruct Hin|].
+  cbn [map fst] in Hnd. inversion Hnd as [|? ? Hni Hnd']; subst. cbn [wsum].
+  destruct Hin as [E|Hin].
+  - inversion E; subst i ki. rewrite Nat.leb_refl. destruct (Nat.leb_spec (p + 2) p); [lia|].
+    rewrite (wsum_shift tl p (p + 2)); [lia|lia|].
+    intros j kj Hj. assert (j <> p).
+    { intros ->. apply Hni. apply in_map_iff. exists (p, kj). split; [reflexivity|exact Hj]. }
+    destruct (Hap j kj (or_intror Hj) H0); lia.
+  - assert (Hne : i <> p).
+    { intros ->. apply Hni. apply in_map_iff. exists (p, k). split; [reflexivity|exact Hin]. }
+    rewrite (IH Hnd' Hin) by (intros j kj Hj; apply (Hap j kj); right; exact Hj).
+    destruct (Hap i ki (or_introl eq_refl) Hne); destruct (Nat.leb_spec p i), (Nat.leb_spec (p + 2) i); lia.
+Qed.
+
+Lemma wsum_zero_all sc : wsum sc 0 = fold_right (fun x a => (snd x + a)%nat) O sc.
+Proof. induction sc as [|[i k] tl IH]; cbn [wsum fold_right snd]; [reflexivity|]. rewrite IH. reflexivity. Qed.
+
+(* the walk with the exact number of steps: sc lists (site position, steps of that site) *)
+Section WalkCnt.
+Variable v : variant.
+Variable L : layout.
+Variable Inv : mstate -> Prop.
+Variable addr : nat -> Z.
+Variable sc : list (nat * nat).
+Variable P1 : nat.
+Let sites := map fst sc.
+Hypothesis sites_nodup : NoDup sites.
+Hypothesis sites_apart : forall i j, In i sites -> In j sites -> i <> j -> (i + 3 <= j \/ j + 3 <= i)%nat.
+Hypothesis sites_fit : forall i, In i sites -> (i + 2 <= P1)%nat.
+Hypothesis step_plain : forall p s, (p < P1)%nat -> is_site sites p = false -> second sites p = false ->
+  Inv s -> pc s = addr p ->
+  exists s', run v L 1 s = (Next s', 1%nat) /\ pc s' = addr (p + 1) /\ Inv s'.
+Hypothesis step_site : forall i k s, In (i, k) sc -> Inv s -> pc s = addr i ->
+  exists s', run v L k s = (Next s', k) /\ pc s' = addr (i + 2) /\ Inv s'.
+
+Lemma site_pair i : In i sites -> exists k, In (i, k) sc.
+Proof. intros H. unfold sites in H. apply in_map_iff in H. destruct H as ([i' k] & E & H). cbn in E. subst. eauto. Qed.
+
+Lemma pair_site i k : In (i, k) sc -> In i sites.
+Proof. intros H. unfold sites. apply in_map_iff. exists (i, k). auto. Qed.
+
+Theorem walk_cnt : forall k p s,
+  (p + k = P1)%nat -> second sites p = false -> Inv s -> pc s = addr p ->
+  exists s' n, run v L n s = (Next s', n) /\ pc s' = addr P1 /\ Inv s' /\
+               (n + 2 * wsum (map (fun x => (fst x, 1%nat)) sc) p = k + wsum sc p)%nat.
+Proof.
+  induction k as [k IH] using lt_wf_ind. intros p s Hk Hsec HI Hpc.
+  set (sc1 := map (fun x => (fst x, 1%nat)) sc).
+  assert (Hsc1 : forall i k1, In (i, k1) sc1 -> In i sites /\ k1 = 1%nat).
+  { intros i k1 H. unfold sc1 in H. apply in_map_iff in H. destruct H as ([i' k'] & E & H). cbn in E. inversion E; subst.
+    split; [eapply pair_site; exact H|reflexivity]. }
+  assert (Hnd1 : NoDup (map fst sc1)).
+  { unfold sc1. rewrite map_map. cbn [fst]. exact sites_nodup. }
+  destruct k as [|k'].
+  - exists s, O. replace P1 with p by lia. split; [reflexivity|]. split; [exact Hpc|]. split; [exact HI|].
+    rewrite !wsum_none; [reflexivity| |].
+    + intros i k0 H. pose proof (sites_fit i (pair_site i k0 H)). lia.
+    + intros i k0 H. destruct (Hsc1 i k0 H) as [Hi _]. pose proof (sites_fit i Hi). lia.
+  - destruct (is_site sites p) eqn:Es.
+    + apply is_site_In in Es. pose proof (sites_fit p Es) as Hfit.
+      destruct (site_pair p Es) as (kp & Hkp).
+      destruct (step_site p kp s Hkp HI Hpc) as (s1 & R1 & P1' & I1).
+      destruct k' as [|k'']; [lia|].
+      destruct (IH k'' ltac:(lia) (p + 2)%nat s1 ltac:(lia) (second_after_site sites sites_apart p Es) I1 P1')
+        as (s' & n & R & Pf & If & Hn).
+      exists s', (kp + n)%nat. split; [|split; [exact Pf|split; [exact If|]]].
+      { rewrite (run_app v L kp n s s1 R1). rewrite R. reflexivity. }
+      rewrite (wsum_at sc p kp sites_nodup Hkp).
+      2:{ intros j kj Hj Hne. destruct (sites_apart p j Es (pair_site j kj Hj) ltac:(lia)); lia. }
+      rewrite (wsum_at sc1 p 1 Hnd1).
+      2:{ unfold sc1. apply in_map_iff. exists (p, kp). split; [reflexivity|exact Hkp]. }
+      2:{ intros j kj Hj Hne. destruct (Hsc1 j kj Hj) as [Hjs _]. destruct (sites_apart p j Es Hjs ltac:(lia)); lia. }
+      fold sc1 in Hn. lia.
+    + destruct (step_plain p s ltac:(lia) Es Hsec HI Hpc) as (s1 & R1 & P1' & I1).
+      destruct (IH k' ltac:(lia) (p + 1)%nat s1 ltac:(lia) (second_after_plain sites p Es) I1 P1')
+        as (s' & n & R & Pf & If & Hn).
+      exists s', (1 + n)%nat. split; [|split; [exact Pf|split; [exact If|]]].
+      { rewrite (run_app v L 1 n s s1 R1). rewrite R. reflexivity. }
+      assert (Hnp : forall i (k0 : nat), In i sites -> (i < p \/ p + 1 <= i)%nat).
+      { intros i _ Hi. destruct (Nat.eq_dec i p) as [->|]; [|lia]. rewrite (In_is_site sites p Hi) in Es. discriminate. }
+      rewrite (wsum_shift sc p (p + 1)) by (try lia; intros i k0 H; apply (Hnp i k0); eapply pair_site; exact H).
+      rewrite (wsum_shift sc1 p (p + 1)) by (try lia; intros i k0 H; apply (Hnp i k0); apply (Hsc1 i k0 H)).
+      fold sc1 in Hn. lia.
+Qed.
+End WalkCnt.
